@@ -243,7 +243,20 @@ fn hnd(rng: &mut Rng) -> String {
 fn invocation(rng: &mut Rng) -> String {
     let n_args_mode = rng.below(10); // 0: too few, else normal
     let short = n_args_mode == 0;
-    let line = match rng.below(20) {
+    let line = match rng.below(21) {
+        20 => {
+            // ten or more arguments: argument::1 and argument::10 share a prefix
+            let n = 10 + rng.usize(3);
+            let cmd = *rng.pick(&["concat", "unset", "join_path", "array_concat"]);
+            let args: Vec<String> = (0..n)
+                .map(|_| match cmd {
+                    "unset" => rng.pick(&VARNAMES).to_string(),
+                    "array_concat" => hnd(rng),
+                    _ => val(rng),
+                })
+                .collect();
+            format!("{} {}", cmd, args.join(" "))
+        }
         0 | 1 => {
             let n = if short { 0 } else { 1 + rng.usize(3) };
             format!("unset {}", (0..n).map(|_| rng.pick(&VARNAMES).to_string()).collect::<Vec<_>>().join(" "))
